@@ -279,7 +279,8 @@ def sample(case):
     return c01.sample(case) if case['kind'] == 'prop' else case
 
 
-THEOREM_FILES = ['P_C16']
+THEOREM_FILES = ['P_C16', 'P_C16_gen']
+THEOREM_NEEDS = {'P_C16_gen': ['Equiv_loops']}
 RULE = ('Hermitian restricted / SSO Hamiltonians with |t|*L1(H) graded over {1e-3 .. 30}, accuracies {1e-4 .. 1e-15}, '
         'expansion limits {2 .. 60}, Taylor and Chebyshev (enclosing and tight spectral bounds): raise iff the control-flow '
         'model says so (cases within 1e-3 of the threshold excluded and counted), returned state = exact partial sum, and '
